@@ -387,6 +387,63 @@ func main() {
 		}
 		logf("RESULT replayrace: master store%d (restarted follower: %v): %d of 10 overwritten keys read back with a value != 2; %s", m4.MasterIdx+1, m4.MasterIdx == f, old, summary(got, e))
 
+	case "coldshard":
+		// two shards of one partition share the raft log: the cold one is flushed (raft snapshot
+		// index advances) while the hot one still holds unflushed rows of earlier entries
+		const month = 30 * 24 * 3600
+		x := mv.MasterIdx
+		for i := 0; i < 5; i++ {
+			if !c.write(pt("cold", i, int64(100+i))) {
+				return
+			}
+		}
+		nHot := 0
+		start := time.Now()
+		for time.Since(start) < 9*time.Second { // keeps the hot shard hot; the cold one is flushed after 5 s
+			if !c.write(pt("hot", month+nHot, int64(200+nHot))) {
+				return
+			}
+			nHot++
+			time.Sleep(400 * time.Millisecond)
+		}
+		got, e := c.read()
+		logf("%d hot points acknowledged over 9 s; read: %s", nHot, summary(got, e))
+		logf("SIGKILL master store%d", x+1)
+		c.Stores[x].Kill()
+		m2 := c.waitMaster(x)
+		logf("meta after kill: %v", m2)
+		c.write(pt("b", 0, 1))
+		_ = c.Stores[x].Start()
+		if !c.waitReady(x) {
+			logf("store did not come back")
+			return
+		}
+		time.Sleep(10 * time.Second)
+		for round := 0; round < 3; round++ {
+			cur, _ := c.meta()
+			if cur.MasterIdx == x {
+				break
+			}
+			k := cur.MasterIdx
+			logf("kill current master store%d", k+1)
+			c.Stores[k].Kill()
+			m4 := c.waitMaster(k)
+			c.write(pt("b", 1+round, 1))
+			got, e = c.read()
+			if m4.MasterIdx == x {
+				n := 0
+				for i := 0; i < nHot; i++ {
+					if _, ok := got[fmt.Sprintf("hot@%d", T0+int64(month+i)*1_000_000_000)]; !ok {
+						n++
+					}
+				}
+				logf("RESULT coldshard: %d of the %d acknowledged points of the hot shard are missing when the restarted store serves (%s)", n, nHot, summary(got, e))
+			}
+			_ = c.Stores[k].Start()
+			c.waitReady(k)
+			time.Sleep(8 * time.Second)
+		}
+
 	case "lww":
 		// no fault at all: overwrite across flush generations on every replica
 		K := func(v int64) string {
